@@ -19,7 +19,8 @@ RULE = ("case = one 'hostile' history (>=60% of argument choices drawn from the 
         "refused call is one evaluated fault; distinct = (op,strategy,outcome) sequence hash; non-trivial = >=15 "
         "refused calls over >=6 different mutators")
 ASSUMPTIONS = ["refusal = exception whose innermost spydrnet frame is an explicit assert/raise (or a missing-key KeyError "
-               "of the data dictionary); other exceptions are crashes, counted and listed but not judged",
+               "of the data dictionary); a call given an invalid argument that ends with any other exception is judged the same way "
+               "(key failed-call-...); exceptions on valid arguments are counted and listed, not judged",
                "objects created by the refused call itself are not part of the 'before' state"]
 REQUIRED = {"refusals_checked": 1500, "mutators_refused": 25, "lookup_snapshots": 200}
 PROBES = {}
